@@ -129,6 +129,17 @@ func ZzvC09OnNode() {
 		}
 		nm.Status.PodsMetric = append(nm.Status.PodsMetric, &slov1alpha1.PodMetricInfo{Namespace: "ns", Name: "gone", PodUsage: slov1alpha1.ResourceMap{ResourceList: dUsed.list()}, Priority: pr})
 	}
+	// one host application: none / prod (counted as system usage) / batch (not charged)
+	hostApp := zzverif.Choice("hostApp", 3)
+	hUsed := zzvRL{}
+	if hostApp > 0 {
+		hUsed = zzvSym("hostApp", B)
+		pr := extension.PriorityProd
+		if hostApp == 2 {
+			pr = extension.PriorityBatch
+		}
+		nm.Status.HostApplicationMetric = append(nm.Status.HostApplicationMetric, &slov1alpha1.HostApplicationMetricInfo{Name: "app", Priority: pr, Usage: slov1alpha1.ResourceMap{ResourceList: hUsed.list()}})
+	}
 	p := &Plugin{}
 	out, _, _ := p.calculateOnNode(strategy, node, podList, &framework.ResourceMetrics{NodeMetric: nm})
 	cpu, mem := out.Cpu().MilliValue(), out.Memory().Value()
@@ -169,8 +180,13 @@ func ZzvC09OnNode() {
 			chargedMem += dUsed.mem
 		}
 	}
-	sysOrResCPU := zzverif.MaxInt64(sys.cpu, kubeletReserved.cpu)
-	sysOrResMem := zzverif.MaxInt64(sys.mem, kubeletReserved.mem)
+	sysCPU, sysMem := sys.cpu, sys.mem
+	if hostApp == 1 { // a high-priority host application consumes the node's reserved/system share
+		sysCPU += hUsed.cpu
+		sysMem += hUsed.mem
+	}
+	sysOrResCPU := zzverif.MaxInt64(sysCPU, kubeletReserved.cpu)
+	sysOrResMem := zzverif.MaxInt64(sysMem, kubeletReserved.mem)
 	if memPol == 1 {
 		sysOrResMem = kubeletReserved.mem
 	}
